@@ -10,7 +10,7 @@ from vf.engine.runner import Result
 ID = "C06"
 BOUNDS = {
     "quick": "abort also before execute() is called, from inside any resolver call and between any two loop callbacks; 13 incremental + 2 plain requests x site sets x early execution off/on x stop kind {consumer aclose, abort(None), abort(exception), abort(non-exception value)} inserted at EVERY choice point of EVERY completion order (complete), plus the same runs without a stop and with resolver / source failures; 4 subscription scenarios x stop at every point; component level: consumer close at every choice point of every synthetic work graph (<=2 groups with <=2 tasks, or 1 group + 1 task + 1 stream over 15 scripts) on the real WorkQueue/publisher/StreamItemQueue(capacity 1|2)",
-    "thorough": "all 20 C04 requests; early release <=1 before the stop",
+    "thorough": "all C04 requests; early release <=1 before a consumer close",
 }
 RULE = (
     "crash-point style exploration on the hand-stepped loop: for every schedule of every request one stop action is inserted at every choice "
@@ -165,7 +165,9 @@ def run_incr(arg, tier, res, only=None):
     cap = 40000 if tier == "quick" else 600000
     for fault in faults:
         def scenario(c, fault=fault):
-            return incr.run(c, schema, doc, sites, fault, early, early_bound=(tier == "thorough" and stop != "none"), variables=variables,
+            # thorough: one early release before the consumer's close; for abort the stop points between all loop callbacks already
+            # cover "the signal lands while callbacks are queued", and the product with early releases is beyond any budget
+            return incr.run(c, schema, doc, sites, fault, early, early_bound=(tier == "thorough" and stop == "aclose"), variables=variables,
                             stop=None if stop == "none" else stop, abort_reason=new_reason(), settle_after=True, sync_stops=True, step_stops=STEP_STOPS)
 
         def visit(c, obs, fault=fault):
@@ -183,7 +185,7 @@ def run_incr(arg, tier, res, only=None):
             c, obs = run_once(scenario, only[1])
             visit(c, obs)
             return
-        st = explore(scenario, 1 if (tier == "thorough" and stop != "none") else 0, visit, max_executions=cap)
+        st = explore(scenario, 1 if (tier == "thorough" and stop == "aclose") else 0, visit, max_executions=cap)
         res.add_stats(st)
         if st.pruned:
             res.notes.append(f"cap {cap} hit: {name} sites {sites} stop {stop}")
